@@ -63,6 +63,14 @@ def gen_cases(tier, seed):
             for singles in (False, True):
                 add(variant, 'isr', f'{s1},{s1}', 2, part=part, singles=singles,
                     cost=20)
+        if variant in ('ip', 'ea'):
+            # fourth order of the lowest class (second term of the S^-1/2 series)
+            # and the third class against the first
+            s3 = spaces_upto(variant, 3)[2]
+            add(variant, 'isr', f'{s1},{s1}', 4, cost=150, part='mp',
+                singles=False)
+            add(variant, 'isr', f'{s1},{s3}', 1, cost=100, part='mp')
+            add(variant, 'isr', f'{s3},{s1}', 1, cost=100, part='mp')
         add(variant, 'precursor', f'{s1},{s1}', 2, real=True, cost=20)
         add(variant, 'precursor', f'{s1},{s2}', 1, real=True, cost=20)
         add(variant, 'precursor', f'{s2},{s2}', 1, real=True, cost=40)
@@ -98,8 +106,14 @@ def run_case(case, res):
     variant, kind, order = case['variant'], case['kind'], case['order']
     r = rng_for(case['hseed'], 'names')
     spI, spJ = case['block'].split(',')
-    n_tot = (spI + spJ).count('h'), (spI + spJ).count('p')
-    dims = (2, 2) if max(n_tot) >= 4 else r.choice([(2, 2), (3, 2), (2, 3)])
+    # enough orbitals for every class to exist (k holes need k occupied orbitals)
+    need_o = max(spI.count('h'), spJ.count('h'), 2)
+    need_v = max(spI.count('p'), spJ.count('p'), 2)
+    n_h, n_p = (spI + spJ).count('h'), (spI + spJ).count('p')
+    opts = [(need_o, need_v), (need_o + 1, need_v), (need_o, need_v + 1)]
+    opts = [d for d in opts if d[0] ** n_h * d[1] ** n_p <= 20000] or \
+        [(need_o, need_v)]
+    dims = r.choice(opts)
     alias = {}
     if case['real']:
         alias = {f't{n}cc': f't{n}' for n in range(1, 6)}
